@@ -1,5 +1,6 @@
 import ClaripyProofs.Lemmas.Solver.CachelessHistory
 import ClaripyProofs.Lemmas.Solver.SolverConsistent
+import ClaripyProofs.Lemmas.Solver.StringsHistory
 /-!
 # C11 — solver answers after any history (Solver, SolverCacheless, SolverStrings)
 
@@ -50,8 +51,8 @@ def C11_full (cls : SolverClass) : Prop :=
 -- below (`C11_cacheless_refines`, `C11_solver_refines`) use the relativised forms (`Reg`, `SimpOn`, `BuildOn`, `PickOk` —
 -- `PickValid` as stated asks a duplicate-free choice from lists WITH duplicates and is unsatisfiable), and
 -- `C11_hypotheses_consistent` / `C11_solver_hypotheses_consistent` show those are jointly satisfiable.
--- NOT proved of `C11_full`: the classes other than SolverCacheless and Solver; `track=True`; `reuse_z3_solver`; the call
--- `unsat_core`; for SolverCacheless also `batch_eval` and pickling inside a history (both are in scope for `Solver`).
+-- NOT proved of `C11_full`: the classes other than SolverCacheless, SolverStrings and Solver; `track=True`; `reuse_z3_solver`; the call
+-- `unsat_core`; for SolverCacheless / SolverStrings also `batch_eval` and pickling inside a history (in scope for `Solver`).
 
 /-- `_satisfiable` over an exact oracle is exact and leaves the solver object's frames alone -/
 theorem C11_satisfiable_exact {E : Env} (hE : OracleExact E) {hook : PModel → M Unit} {A : List ZCon}
@@ -129,6 +130,30 @@ theorem C11_is_true_false_sound {G : St → Prop} {E : Env} (hT : CheapSound E) 
     | (.ok b, s') => (b = true → ∀ a, Models (U ++ extra) a → c.sem a = isTrue) ∧ CLInv G U s'
     | (.error err, s') => ErrOk E (U ++ extra) err ∧ CLInv G U s' :=
   clTruth_spec hT hs U s h isTrue c hc extra wf
+
+/-! ### SolverStrings (bit-vector alphabets), whole histories over trees of branched solvers -/
+
+/-- **SolverStrings refines the specification** — the class ConcreteHandler, ConstraintFilter, ConstraintDeduplicator,
+EagerResolution over FullFrontend (generated MRO), same scope and hypotheses as `C11_cacheless_refines`.  Expressions and
+constraints are the opaque records of the model (a value per assignment): what Z3's string theory answers is part of the
+oracle. -/
+theorem C11_strings_refines {E : Env} {R : Con → Prop} (hR : Reg R E) (hE : OracleExact E)
+    (hS : SimpOn R E) (hT : CheapSound E) (hist : List (Nat × Op)) (hok : HistOk R 1 hist) :
+    ∀ x ∈ runHist E .SolverStrings (World.init false false) [[]] hist,
+      x.2.2 ≠ .err .giveUp → Judge x.1 x.2.1 x.2.2 :=
+  st_hist hR hE hS hT hist _ _ (tinv_init R) hok
+
+theorem C11_strings_refines_or_gives_up {E : Env} {R : Con → Prop} (hR : Reg R E) (hE : OracleExact E)
+    (hS : SimpOn R E) (hT : CheapSound E) (hist : List (Nat × Op)) (hok : HistOk R 1 hist) :
+    ∀ x ∈ runHist E .SolverStrings (World.init false false) [[]] hist, JudgeOrGiveUp E x.1 x.2.1 x.2.2 :=
+  st_hist_giveup hR hE hS hT hist _ _ (tinv_init R) hok
+
+theorem C11_strings_step {E : Env} {R : Con → Prop} (hR : Reg R E) (hE : OracleExact E) (hS : SimpOn R E)
+    (hT : CheapSound E) (w : World) (Us : List (List Con)) (hw : TInv R Us w) (i : Nat) (hi : i < w.fes.length)
+    (op : Op) (hop : InScope R op) :
+    JudgeOrGiveUp E (usersAfter (Us.getD i []) op) op (step E .SolverStrings w i op).1 ∧
+    TInv R (usersAll Us i op) (step E .SolverStrings w i op).2 :=
+  st_step hR hE hS hT w Us hw i hi op hop
 
 /-! ### ModelCacheMixin: the invariant of the cache, every operation of the mixin, the fast paths -/
 
